@@ -234,6 +234,18 @@ def run_container(P, pid, cspec, tier, seed):
                 elif soft:
                     if len(out["fidelity"]) < 2:
                         out["fidelity"].append((bname, container, chunk[h], soft))
+    if cspec.get("valgrind") and tier == "thorough":
+        # uninitialised reads / invalid frees that ASan does not see: memcheck over corpus + a sample
+        try:
+            vr = Runner(container, opts, valgrind=True)
+            sample = corp + rnd[: cspec.get("valgrind_n", 150)]
+            for h, diffs in vr.run(sample):
+                hard = [d for d in diffs if d.kind == "crash" and relevant(P, container, d)]
+                if hard and len(out["violations"]) < 2:
+                    out["violations"].append(("valgrind", container, sample[h], hard))
+            batches.append(("valgrind-memcheck", sample))
+        except Exception as e:
+            out["problems"].append(f"{container}/valgrind: {str(e)[:200]}")
     out["stats"] = dict(runner.stats(), streams=[(b, len(h)) for b, h in batches], focus=focus)
     out["samples"] = runner.samples
     return out
